@@ -54,7 +54,7 @@ MAX_SIZE = 6
 # worker side (runs in the forked rank processes only)
 # =============================================================================================
 _W = dict(installed=False, seq=0, events=None, log=False, nobj=0, proj={}, cur_i=-1, last_cv=None,
-          pv=None, opt=None, lin=None, wunit=1.0)
+          pv=None, opt={}, lin={}, wunit=1.0, shape_ord={}, conf='plain')
 WEXPS = (-27, -100, 40)          # weights are handed over times 2**e (quick and thorough)
 WEXPS_THOROUGH = (-12, -60, -200, 100)
 TINY = -60                       # a masked weight realised as k/4 * 2**TINY instead of exactly zero
@@ -122,9 +122,23 @@ def _install():
         self._verif_ord = _W['nobj']
         _W['nobj'] += 1
 
+    def proj_of(self, value=None):
+        # the accumulator whose events are logged: by creation order, or (key = a shape) the one that is fed
+        # arrays of that shape -- e.g. the condensate profiles, whatever place compute_error gives them
+        pj = getattr(self, '_verif_pj', None)
+        if pj is None:
+            pj = _W['proj'].get(getattr(self, '_verif_ord', None))
+            if pj is None and value is not None:
+                pj = _W['proj'].get(tuple(np.shape(value)))
+                if pj is not None:           # remembered: a rank that holds no sample never feeds it, and still combines it
+                    _W['shape_ord'][(_W['conf'], tuple(np.shape(value)))] = getattr(self, '_verif_ord', None)
+            if pj is not None:
+                self._verif_pj = pj
+        return pj
+
     def update(self, value, weight=1.0):
         r = o_update(self, value, weight)
-        pj = _W['proj'].get(getattr(self, '_verif_ord', None))
+        pj = proj_of(self, value)
         if pj is not None and _W['log']:
             idx, a, b = pj
             u = (float(np.asarray(value)[idx]) - b) / a
@@ -147,7 +161,7 @@ def _install():
             res = o_pv(self)
         finally:
             ex, _W['pv'] = _W['pv'], None
-        pj = _W['proj'].get(getattr(self, '_verif_ord', None))
+        pj = proj_of(self)
         if pj is not None and _W['log']:
             if len(ex) < 4:
                 raise RuntimeError('parallelVariance made %d exchanges, 4 expected' % len(ex))
@@ -231,10 +245,19 @@ def _params(u, i, names, modes):
     return [math.log10(d[n]) if modes[n] == 'log' else d[n] for n in names]
 
 
-def _optimizer():
-    """A small real forward model + an Optimizer whose 'solution' is supplied by the harness."""
-    if _W['opt'] is not None:
-        return _W['opt']
+NCOND = 3                       # condensates of the 'cond' fixture: profiles of shape (NCOND, layers), unlike every other accumulator
+COND_A = 2.0 ** -20             # condensate k in layer l: (k + 1) * COND_A * T_l * (P_l / P_max) ** 0.25  (exactly affine in T)
+OUT_KEYS = dict(temp='temp_profile_std', active='active_mix_profile_std', inactive='inactive_mix_profile_std',
+                cond='condensate_profile_std', native='native_std', binned='binned_std')
+
+
+def _optimizer(conf='plain'):
+    """A small real forward model + an Optimizer whose 'solution' is supplied by the harness.
+    conf: 'plain' -- a free chemistry without condensates;  'cond' -- the same chemistry reporting condensates
+    through the documented hook (Chemistry.condensates / condensateMixProfile), as an equilibrium-chemistry
+    plugin does: compute_error then keeps one more accumulator and returns one more standard deviation."""
+    if conf in _W['opt']:
+        return _W['opt'][conf]
     from taurex.log import disableLogging
     disableLogging()
     from taurex.model import TransmissionModel
@@ -249,7 +272,28 @@ def _optimizer():
     OpacityCache().clear_cache()
     wn = np.array([1000., 2000., 3000., 4000.])
     OpacityCache().add_opacity(GridOpacity('H2O', wn, [100., 5000.], [1e-2, 1e7], np.ones((2, 2, 4)) * 1e-22))
-    chem = TaurexChemistry(fill_gases=['H2', 'He'], ratio=0.17)
+    if conf == 'cond':
+        class CondensingChemistry(TaurexChemistry):
+            @property
+            def condensates(self):
+                return ['C%d(s)' % (k + 1) for k in range(NCOND)]
+
+            def initialize_chemistry(self, nlayers=100, temperature_profile=None, pressure_profile=None,
+                                     altitude_profile=None):
+                super().initialize_chemistry(nlayers, temperature_profile, pressure_profile, altitude_profile)
+                shape = (np.asarray(pressure_profile, dtype=float) / float(np.max(pressure_profile))) ** 0.25
+                shape[0] = 1.0
+                self._verif_cond = np.array([(k + 1) * COND_A * np.asarray(temperature_profile, dtype=float) * shape
+                                             for k in range(NCOND)])
+
+            @property
+            def condensateMixProfile(self):
+                return self._verif_cond
+        chem = CondensingChemistry(fill_gases=['H2', 'He'], ratio=0.17)
+    elif conf == 'plain':
+        chem = TaurexChemistry(fill_gases=['H2', 'He'], ratio=0.17)
+    else:
+        raise RuntimeError('unknown model configuration %r' % (conf,))
     chem.addGas(ConstantGas('H2O', 1e-3))
     model = TransmissionModel(planet=Planet(planet_mass=1.0, planet_radius=1.0),
                               star=BlackbodyStar(temperature=5000, radius=1.0), chemistry=chem,
@@ -312,11 +356,14 @@ def _optimizer():
     def observe(u):
         o_um(_params(u, 0, names, modes))
         ng, native, _, _ = model.model(wngrid=grid, cutoff_grid=False)
-        return dict(temp_profile_std=np.array(model.temperatureProfile, dtype=float),
-                    active_mix_profile_std=np.array(model.chemistry.activeGasMixProfile, dtype=float),
-                    inactive_mix_profile_std=np.array(model.chemistry.inactiveGasMixProfile, dtype=float),
-                    native_std=np.array(native, dtype=float),
-                    binned_std=np.array(opt._binner.bindown(ng, native)[1], dtype=float))
+        d = dict(temp_profile_std=np.array(model.temperatureProfile, dtype=float),
+                 active_mix_profile_std=np.array(model.chemistry.activeGasMixProfile, dtype=float),
+                 inactive_mix_profile_std=np.array(model.chemistry.inactiveGasMixProfile, dtype=float),
+                 native_std=np.array(native, dtype=float),
+                 binned_std=np.array(opt._binner.bindown(ng, native)[1], dtype=float))
+        if model.chemistry.hasCondensates:
+            d['condensate_profile_std'] = np.array(model.chemistry.condensateMixProfile, dtype=float)
+        return d
     o0, o1, o3 = observe(0.0), observe(1.0), observe(3.0)
     lin = {}
     for k in o0:
@@ -324,14 +371,31 @@ def _optimizer():
         if not np.allclose(o3[k], o0[k] + 3.0 * a, rtol=1e-12, atol=0.0):
             raise RuntimeError('fixture observable %s is not affine in the sample value' % k)
         lin[k] = np.abs(a).tolist()
-    _W['opt'], _W['lin'] = (opt, names, modes), lin
-    return _W['opt']
+    if conf == 'cond' and (lin['condensate_profile_std'][0][0] != COND_A * TA or np.shape(o0['condensate_profile_std']) != (NCOND, 3)):
+        raise RuntimeError('condensate fixture: slope %r, shape %r' % (lin['condensate_profile_std'][0][0], np.shape(o0['condensate_profile_std'])))
+    _W['opt'][conf], _W['lin'][conf] = (opt, names, modes), lin
+    return _W['opt'][conf]
 
 
 def _run_prof(rank, size, case):
-    opt, names, modes = _optimizer()
+    conf = case.get('model', 'plain')
+    opt, names, modes = _optimizer(conf)
     common = _begin_case(case, rank, size)
-    _W['proj'] = {0: ((0,), TA, T0)}          # the first OnlineVariance of compute_error: temperature profile
+    _W['conf'] = conf
+    projknown = True
+    if case.get('proj') == 'cond':
+        # the accumulator that is fed the (NCOND, layers) arrays: first condensate, bottom layer = COND_A * T.
+        # Its place among the accumulators of compute_error is learnt from the first run in which this rank feeds
+        # it; until then a run in which this rank holds no sample cannot log its (empty) contribution.
+        pj = ((0, 0), COND_A * TA, COND_A * T0)
+        _W['proj'] = {(NCOND, 3): pj}
+        o = _W['shape_ord'].get((conf, (NCOND, 3)))
+        if o is not None:
+            _W['proj'][o] = pj
+        else:
+            projknown = len(range(rank, len(case['v']), size)) > 0
+    else:
+        _W['proj'] = {0: ((0,), TA, T0)}      # the first OnlineVariance of compute_error: temperature profile
     us = [float(Fraction(*q)) for q in case['v']]
     ws = [math.ldexp(float(Fraction(*q)), int(case.get('wexp', 0))) for q in case['w']]
     opt.S = np.array([_params(u, i, names, modes) for i, u in enumerate(us)], dtype=float).reshape(len(us), len(names))
@@ -352,7 +416,7 @@ def _run_prof(rank, size, case):
             opt.S = np.array(rows, dtype=float).reshape(len(us), len(names))
             opt.W = np.array(wts, dtype=float)
     random.seed(case["rseed"] + 7919 * rank)     # every MPI process has its own random state
-    out = dict(lin=_W['lin'])
+    out = dict(lin=_W['lin'][conf], projknown=projknown)
     if case.get('profiles', True):
         pd, sd = opt.generate_profiles(0, opt._observed.wavenumberGrid)
         out['std'] = {k: _tolist(v) for k, v in list(pd.items()) + list(sd.items())}
@@ -397,8 +461,9 @@ class Runner(object):
         # import and JIT-compile once in the parent (sequential numba kernels, no threads): the forked
         # rank processes inherit the compiled code and build their own model objects
         _optimizer()
-        _W['opt'] = None
-        _W['lin'] = None
+        _optimizer('cond')
+        _W['opt'] = {}
+        _W['lin'] = {}
 
     def group(self, size):
         g = self.groups.get(size)
@@ -642,9 +707,11 @@ def judge_prof(ctx, vec, case, res, ref):
         cls += ':%s:numpy-weights' % zc
         if not case.get('wexp'):
             COVER.add(('profiles', nr, zc, True))
+    if case.get('model', 'plain') != 'plain':
+        cls += ':model=' + case['model']
     cls += scale_tag(case)
     dcls = 'derived:%s:%s%s' % ('tied-weights' if ties else 'distinct-weights', 'one-rank' if nr == 1 else 'several-ranks', scale_tag(case))
-    info = dict(case, vector=dict(mean=vec.get('mean'), var=vec.get('var')))
+    info = dict(case, vector=dict(mean=vec.get('mean'), var=vec.get('var'), keys=vec.get('keys')))
     if res[0] != 'ok':
         ctx.verdict(fail_clause(res), False, cls=cls if case.get('profiles', True) else dcls, detail=res[1][-600:], vector=info)
         return
@@ -652,6 +719,12 @@ def judge_prof(ctx, vec, case, res, ref):
     for r, out in enumerate(res[1]):
         if 'std' in out:
             evar = xnum(vec['var'])
+            if vec.get('keys'):
+                # the configuration's family of statistics: one entry per reported quantity, none missing
+                want = sorted(OUT_KEYS[k_] for k_ in vec['keys'])
+                miss = [k_ for k_ in want if k_ not in out['std']]
+                ctx.verdict('profiles_std', not miss, cls=cls, vector=info,
+                            detail='rank %d/%d: %s not returned for a model reporting %s (returned: %s)' % (r, nr, miss, sorted(vec['keys']), sorted(out['std'])))
             for k, got in sorted(out['std'].items()):
                 clause = 'spectra_std' if k in ('native_std', 'binned_std') else 'profiles_std'
                 if k not in out['lin']:
@@ -760,6 +833,8 @@ def validate_events(ctx, runs, label):
             per_rank = pr_by_tid.get(tid, [])
             cls += ':%s:%s' % (zero_class(processed_lists(per_rank, wsf)) or 'zero-weight-unclassified',
                                'numpy-weights' if (case['kind'] != 'ov' or case.get('npw')) else 'python-weights')
+        if case.get('model', 'plain') != 'plain':
+            cls += ':model=%s:%s-accumulator' % (case['model'], case.get('proj', 'temp'))
         cls += scale_tag(case)
         ctx.verdict('trace_' + (b['why'] if b else 'accepted'), b is None, cls=cls,
                     detail='TLC rejected event %s of rank %s (line %s): %s; n=%d nr=%d per-rank counts %s' %
@@ -856,7 +931,7 @@ def tlc_parallel(jobs, par, big_workers):
 
     def one(j):
         try:
-            return run_tlc('MC_ParallelStats', j['cfg'], workers=1 if j['kind'] == 'export' else big_workers,
+            return run_tlc(j.get('module', 'MC_ParallelStats'), j['cfg'], workers=1 if j['kind'] == 'export' else big_workers,
                            coverage=bool(j.get('need')), allow_violation=(j['kind'] == 'refute'),
                            heap='3g' if big_workers <= 4 else '6g')
         except Exception as e:       # noqa  (reported in order by the caller)
@@ -934,6 +1009,15 @@ def run(ctx):
     refute('refute-absolute-threshold-on-weight-sum', 'MC_ParallelStats_refute_scale.cfg', 'VarianceIsTwoPass')
     # the weighted-mean summary of a derived parameter taken from the lists the rank filled itself
     refute('refute-summary-from-local-lists', 'MC_ParallelStats_refute_localmean.cfg', 'SummaryMeanIsGlobal')
+    # the family of statistics a run reports (spec/PostStats.tla): one accumulator per reported quantity, optional
+    # ones (condensate profiles) for every model configuration; each combined across the ranks
+    ex_post = 'EX_PostStats_%s.cfg' % t
+    jobs.append(dict(kind='check', module='MC_PostStats', label='statistic-family', cfg='MC_PostStats_%s.cfg' % t, depth=1 + (3 if q else 4)))
+    jobs.append(dict(kind='refute', module='MC_PostStats', label='refute-statistic-from-own-accumulator', cfg='MC_PostStats_refute_local.cfg',
+                     inv='EveryStatisticIsCombined'))
+    jobs.append(dict(kind='export', module='MC_PostStats', label='export-' + ex_post, cfg=ex_post))
+    if not q:
+        jobs.append(dict(kind='check', module='MC_PostStats', label='own-accumulator-is-right-on-one-rank', cfg='MC_PostStats_local_one_rank.cfg', depth=2))
     if not q:
         refute('refute-absolute-threshold-sched', 'MC_ParallelStats_refute_scale_sched.cfg', 'ScheduleIndependent')
         refute('refute-local-summary-rank-fails', 'MC_ParallelStats_refute_norank.cfg', 'NoRankFails')
@@ -948,11 +1032,11 @@ def run(ctx):
         if j['kind'] == 'refute':
             ctx.add_tlc(j['label'], res, counts=False)
             if res.violated != j['inv']:
-                raise Machinery('expected TLC to refute %s in MC_ParallelStats/%s, got %r' % (j['inv'], j['cfg'], res.violated))
+                raise Machinery('expected TLC to refute %s in %s/%s, got %r' % (j['inv'], j.get('module', 'MC_ParallelStats'), j['cfg'], res.violated))
             continue
         ctx.add_tlc(j['label'], res)
         if res.violated:
-            raise Machinery('spec MC_ParallelStats/%s violates %s\n%s' % (j['cfg'], res.violated, res.error_trace))
+            raise Machinery('spec %s/%s violates %s\n%s' % (j.get('module', 'MC_ParallelStats'), j['cfg'], res.violated, res.error_trace))
         if res.distinct == 0:
             raise Machinery('TLC reported 0 states for MC_ParallelStats/%s' % j['cfg'])
         for a in j.get('need', ()):
@@ -971,9 +1055,12 @@ def run(ctx):
     if any(not v['defined'] for v in vv + zv) or not all(any(frac(x) == 0 for x in v['w']) for v in zv):
         raise Machinery('exported vectors: a sample set without positive weight, or a zero mask without zero weight')
     vv = vv + zv
+    pv = exported[ex_post]
+    if len(pv) < 100 or not any('cond' in v['conf'] for v in pv) or not any(not v['conf'] for v in pv):
+        raise Machinery('statistic-family export: %d vectors' % len(pv))
     runner = Runner()
     try:
-        execute(ctx, runner, rng, vv, tv, q)
+        execute(ctx, runner, rng, vv, tv, q, pv)
     finally:
         runner.close()
         fx_mpi.close_all()
@@ -993,7 +1080,7 @@ def run(ctx):
     ctx.note('zero-weight classes exercised (path, ranks, class, numpy weights): %d' % len(COVER))
 
 
-def execute(ctx, runner, rng, vv, tv, q):
+def execute(ctx, runner, rng, vv, tv, q, pv=()):
     tid = [0]
 
     def next_tid():
@@ -1091,6 +1178,39 @@ def execute(ctx, runner, rng, vv, tv, q):
                 if res[0] == 'ok' and (not c.get('wexp') or rng.random() < SC_TRACE):
                     traced.append((c, res[1]))
     mark('generate_profiles')
+    # -------- the family of reported statistics over the model configurations (spec/PostStats.tla): every standard
+    # deviation the run returns -- the optional ones (condensate profiles) included -- on every rank; the event log
+    # of the condensate accumulator (or of the temperature accumulator) goes to TLC
+    by_nr = {}
+    ntraced_cond = 0
+    for v in pv:
+        if 'cond' in v['conf'] or rng.random() < (0.25 if q else 1.0):
+            by_nr.setdefault(v['nr'], []).append(v)
+    for nr in sorted(by_nr):
+        items = []
+        for v in sorted(by_nr[nr], key=lambda v_: -v_['n']):      # every rank holds samples in the first runs
+            c = dict(case_from_vector(v, next_tid(), 'prof', rng), profiles=True, derived=False,
+                     model='cond' if 'cond' in v['conf'] else 'plain')
+            if c['model'] == 'cond' and c['tid'] % 3:
+                c['proj'] = 'cond'
+            items.append((v, c))
+            if c['model'] == 'cond' and v['n'] >= 3 and rng.random() < SC_PROF:
+                items.append((v, dict(case_from_vector(v, next_tid(), 'prof', rng, wexp=next_exp()), profiles=True, derived=False,
+                                      model='cond', proj='cond')))
+        for k in range(0, len(items), B):
+            chunk = items[k:k + B]
+            out = runner.run_batch(nr, [c for _, c in chunk])
+            for (v, c), res in zip(chunk, out):
+                if res[0] == 'failed':
+                    raise Machinery('simulated run failed: ' + res[1][-600:])
+                judge_prof(ctx, v, c, res, None)
+                if res[0] == 'ok' and v['n'] >= 1 and (c.get('proj') == 'cond' or rng.random() < 0.3) and \
+                        all(o.get('projknown', True) for o in res[1]):
+                    traced.append((c, res[1]))
+                    ntraced_cond += c.get('proj') == 'cond'
+    if ntraced_cond < 20 and not ctx.has_violations():
+        raise Machinery('only %d event logs of the condensate accumulator' % ntraced_cond)
+    mark('statistic-family')
     # -------- compute_derived_trace: one-rank reference first, then the same samples on 2..6 ranks
     dv = [v for v in tv if v['n'] >= 1 and frac(v['wsum']) > 0]
     dv = [v for v in dv if v['n'] >= 4 or rng.random() < (0.25 if q else 1.0)]
@@ -1193,7 +1313,7 @@ def replay(ctx, violations):
                   {k: res[1][0].get(k) for k in ('var', 'mean', 'std', 'derived') if k in res[1][0]}))
             if vec is None or case.get('tid', 0) >= 900000:
                 continue
-            full = dict(nr=nr, n=len(case['v']), v=case['v'], w=case['w'], mean=vec.get('mean'), var=vec.get('var'), acc=None)
+            full = dict(nr=nr, n=len(case['v']), v=case['v'], w=case['w'], mean=vec.get('mean'), var=vec.get('var'), keys=vec.get('keys'), acc=None)
             if case['kind'] == 'ov' and vec.get('var') is not None:
                 judge_ov(ctx, full, dict(case, rr=0), res)
             elif case['kind'] == 'prof':
